@@ -1,2 +1,407 @@
-use crate::Scenario;
-pub fn scenarios() -> Vec<Scenario> { vec![] }
+//! C06: trusted-dealer key generation.  Every share verifies and converts into a consistent key
+//! package, all parties see the same group key, the threshold is recorded, the shares are
+//! evaluations of ONE polynomial of degree exactly t-1 whose value at zero is the key (any t shares
+//! reconstruct it); altered shares are rejected and invalid parameters are refused.
+
+use std::collections::{BTreeMap, BTreeSet};
+
+use frost_core as fc;
+use frost_core::keys::{self, IdentifierList, KeyPackage, SecretShare, VerifiableSecretSharingCommitment};
+use frost_core::Group;
+use serde_json::json;
+
+use crate::c07::key_package_consistent;
+use crate::common::*;
+use crate::rng::TestRng;
+use crate::{scn, Scenario};
+
+pub fn scenarios() -> Vec<Scenario> {
+    vec![
+        scn!(scenario_dealer_output, 12),
+        scn!(scenario_altered_share_rejected, 6),
+        scn!(scenario_invalid_parameters_refused, 6),
+        scn!(scenario_largest_group, 1),
+    ]
+}
+
+#[allow(clippy::type_complexity)]
+fn deal<C: Suite>(
+    rng: &mut TestRng,
+    p: &Params,
+    ids: &[Id<C>],
+    notes: &mut Notes,
+    strict: bool,
+) -> Result<(BTreeMap<Id<C>, SecretShare<C>>, keys::PublicKeyPackage<C>, Option<fc::SigningKey<C>>), Stop> {
+    let use_split = rng.chance(50);
+    notes.insert("entry_point".into(), json!(if use_split { "split" } else { "generate_with_dealer" }));
+    let list = if p.id_scheme == "default" {
+        IdentifierList::Default
+    } else {
+        IdentifierList::Custom(ids)
+    };
+    if use_split {
+        let sk = fc::SigningKey::<C>::new(rng);
+        let (s, pk) = step(strict, keys::split::<C, _>(&sk, p.n, p.t, list, rng), "split with valid parameters")?;
+        Ok((s, pk, Some(sk)))
+    } else {
+        let (s, pk) = step(
+            strict,
+            keys::generate_with_dealer::<C, _>(p.n, p.t, list, rng),
+            "generate_with_dealer with valid parameters",
+        )?;
+        Ok((s, pk, None))
+    }
+}
+
+/// Independent evaluation of the VSS equation: sum_k id^k * C_k.
+fn eval_commitment<C: Suite>(id: &Id<C>, c: &VerifiableSecretSharingCommitment<C>) -> Result<El<C>, Stop> {
+    let x = id_scalar::<C>(id)?;
+    let list = need(c.serialize(), "commitment serialize")?;
+    let mut acc = <Gr<C> as Group>::identity();
+    let mut pow = one::<C>();
+    for cb in list {
+        let ck = need(keys::CoefficientCommitment::<C>::deserialize(&cb), "coefficient")?;
+        acc = acc + ck.value() * pow;
+        pow = pow * x;
+    }
+    Ok(acc)
+}
+
+pub fn scenario_dealer_output<C: Suite>(rng: &mut TestRng, p: &Params, notes: &mut Notes) -> Verdict {
+    let ids = make_ids::<C>(&p.ids)?;
+    let (shares, pkp, sk) = deal::<C>(rng, p, &ids, notes, true)?;
+    let id_set: BTreeSet<Id<C>> = ids.iter().copied().collect();
+    check(
+        shares.keys().copied().collect::<BTreeSet<_>>() == id_set && shares.len() == p.n as usize,
+        "the dealer issues exactly one share per requested identifier",
+        format!("{:?}", ids_hex::<C>(&ids)),
+        format!("{:?}", shares.keys().map(id_hex::<C>).collect::<Vec<_>>()),
+    )?;
+    check(
+        pkp.verifying_shares().keys().copied().collect::<BTreeSet<_>>() == id_set,
+        "the public key package lists exactly the requested identifiers",
+        format!("{:?}", ids_hex::<C>(&ids)),
+        format!("{:?}", pkp.verifying_shares().keys().map(id_hex::<C>).collect::<Vec<_>>()),
+    )?;
+    if let Some(sk) = &sk {
+        let vk = fc::VerifyingKey::<C>::from(sk);
+        // the Taproot suite may hand out the negated key? no: split() keeps the key; compare directly
+        check(
+            &vk == pkp.verifying_key(),
+            "split(): the group key is the public key of the key that was split",
+            hex(&vkey_bytes::<C>(&vk)),
+            hex(&vkey_bytes::<C>(pkp.verifying_key())),
+        )?;
+    }
+    let first_commitment = match shares.values().next() {
+        Some(s) => s.commitment().clone(),
+        None => return fail("the dealer issues shares", p.n.to_string(), "0"),
+    };
+    let clen = first_commitment.serialize().map(|v| v.len()).unwrap_or(0);
+    check(
+        clen == p.t as usize,
+        "the published commitment has exactly min_signers coefficients",
+        p.t.to_string(),
+        clen.to_string(),
+    )?;
+    let mut kps: BTreeMap<Id<C>, KeyPackage<C>> = BTreeMap::new();
+    for (id, share) in &shares {
+        check(share.identifier() == id, "share is filed under its own identifier", id_hex::<C>(id), id_hex::<C>(share.identifier()))?;
+        check(
+            share.commitment() == &first_commitment,
+            "all shares carry the same commitment",
+            "equal commitments",
+            "different commitments",
+        )?;
+        // independent VSS check
+        let lhs = base_mul::<C>(&share_scalar::<C>(share.signing_share())?);
+        let rhs = eval_commitment::<C>(id, share.commitment())?;
+        check(
+            lhs == rhs,
+            "share value times generator equals the commitment evaluated at the identifier (independent evaluation)",
+            hex(&elem_bytes::<C>(&rhs)),
+            hex(&elem_bytes::<C>(&lhs)),
+        )?;
+        let (vs, vk) = must(share.verify(), &format!("SecretShare::verify of the honest share of {}", id_hex::<C>(id)))?;
+        check(
+            &vk == pkp.verifying_key(),
+            "every share verifies to the same group key",
+            hex(&vkey_bytes::<C>(pkp.verifying_key())),
+            hex(&vkey_bytes::<C>(&vk)),
+        )?;
+        check(
+            pkp.verifying_shares().get(id) == Some(&vs),
+            "SecretShare::verify returns the participant's entry of the public key package",
+            format!("{:?}", pkp.verifying_shares().get(id).map(|v| hex(&vshare_bytes::<C>(v)))),
+            hex(&vshare_bytes::<C>(&vs)),
+        )?;
+        let kp = must(KeyPackage::<C>::try_from(share.clone()), "KeyPackage::try_from(honest share)")?;
+        key_package_consistent::<C>(&kp, &pkp, id, p.t, "dealer key package")?;
+        kps.insert(*id, kp);
+    }
+    // any t shares (and t+1, and all) reconstruct the key; t-1 do not
+    let recon = |k: usize, rng: &mut TestRng| -> Result<fc::SigningKey<C>, Stop> {
+        let sub = rng.subset(ids.len(), k);
+        let set: Vec<KeyPackage<C>> = sub.iter().filter_map(|i| ids.get(*i)).filter_map(|i| kps.get(i)).cloned().collect();
+        must(keys::reconstruct::<C>(&set), &format!("reconstruct from {k} >= t key packages"))
+    };
+    let mut secrets = Vec::new();
+    for k in [p.t as usize, p.t as usize, (p.t as usize + 1).min(ids.len()), ids.len()] {
+        let r = recon(k, rng)?;
+        let vk = fc::VerifyingKey::<C>::from(&r);
+        check(
+            &vk == pkp.verifying_key(),
+            "any >= t shares interpolate to the secret of the group key",
+            hex(&vkey_bytes::<C>(pkp.verifying_key())),
+            hex(&vkey_bytes::<C>(&vk)),
+        )?;
+        secrets.push(r.serialize());
+    }
+    if let Some(sk) = &sk {
+        check(
+            secrets.iter().all(|s| *s == sk.serialize()),
+            "split(): any >= t shares reconstruct exactly the key that was split",
+            "the key",
+            "another scalar",
+        )?;
+    }
+    // degree is exactly t-1: t-1 holders (claiming threshold t-1) get something else
+    if p.t > 2 {
+        let sub = rng.subset(ids.len(), p.t as usize - 1);
+        let set: Vec<KeyPackage<C>> = sub
+            .iter()
+            .filter_map(|i| ids.get(*i))
+            .filter_map(|i| kps.get(i))
+            .map(|k| KeyPackage::<C>::new(*k.identifier(), *k.signing_share(), *k.verifying_share(), *k.verifying_key(), p.t - 1))
+            .collect();
+        if let Ok(r) = keys::reconstruct::<C>(&set) {
+            check(
+                &fc::VerifyingKey::<C>::from(&r) != pkp.verifying_key(),
+                "the sharing polynomial has degree exactly t-1 (t-1 shares do not interpolate to the key)",
+                "a different value",
+                "the key",
+            )?;
+        }
+    }
+    Ok(())
+}
+
+pub fn scenario_altered_share_rejected<C: Suite>(rng: &mut TestRng, p: &Params, notes: &mut Notes) -> Verdict {
+    let ids = make_ids::<C>(&p.ids)?;
+    let (shares, _pkp, _) = deal::<C>(rng, p, &ids, notes, false)?;
+    let victim = match ids.get(rng.below(ids.len())) {
+        Some(i) => *i,
+        None => return skip("internal"),
+    };
+    let share = match shares.get(&victim) {
+        Some(s) => s.clone(),
+        None => return skip("internal"),
+    };
+    need(share.verify(), "honest share verifies (subject of scenario_dealer_output)")?;
+    let kinds = ["value-plus-one", "value-random", "value-of-another-participant", "identifier-of-another-participant", "identifier-outsider", "one-commitment-coefficient", "commitment-coefficients-swapped"];
+    let mut kind = kinds[rng.below(kinds.len())];
+    if kind == "commitment-coefficients-swapped" && p.t < 2 {
+        kind = "value-plus-one";
+    }
+    notes.insert("alteration".into(), json!(kind));
+    notes.insert("share_of_hex".into(), json!(id_hex::<C>(&victim)));
+    let other = match ids.iter().find(|i| **i != victim) {
+        Some(i) => *i,
+        None => return skip("internal"),
+    };
+    let s = share_scalar::<C>(share.signing_share())?;
+    let altered: SecretShare<C> = match kind {
+        "value-plus-one" => SecretShare::new(victim, make_signing_share::<C>(&(s + one::<C>()))?, share.commitment().clone()),
+        "value-random" => SecretShare::new(victim, make_signing_share::<C>(&random_nonzero_scalar::<C>(rng))?, share.commitment().clone()),
+        "value-of-another-participant" => match shares.get(&other) {
+            Some(o) => SecretShare::new(victim, *o.signing_share(), share.commitment().clone()),
+            None => return skip("internal"),
+        },
+        "identifier-of-another-participant" => SecretShare::new(other, *share.signing_share(), share.commitment().clone()),
+        "identifier-outsider" => {
+            let o = need(Id::<C>::derive(b"somebody else"), "derive")?;
+            if o == victim {
+                return skip("collision");
+            }
+            SecretShare::new(o, *share.signing_share(), share.commitment().clone())
+        }
+        "one-commitment-coefficient" => {
+            let mut list = need(share.commitment().serialize(), "serialize")?;
+            let k = rng.below(list.len());
+            notes.insert("coefficient".into(), json!(k));
+            if let Some(slot) = list.get_mut(k) {
+                *slot = elem_bytes::<C>(&base_mul::<C>(&random_nonzero_scalar::<C>(rng)));
+            }
+            let c = need(VerifiableSecretSharingCommitment::<C>::deserialize(list), "deserialize")?;
+            SecretShare::new(victim, *share.signing_share(), c)
+        }
+        _ => {
+            let mut list = need(share.commitment().serialize(), "serialize")?;
+            let a = rng.below(list.len());
+            let b = (a + 1 + rng.below(list.len() - 1)) % list.len();
+            list.swap(a, b);
+            let c = need(VerifiableSecretSharingCommitment::<C>::deserialize(list), "deserialize")?;
+            // (x^a - x^b)(C_a - C_b) = 0 only if x^a == x^b; for identifier 1 every power is 1
+            if id_scalar::<C>(&victim)? == one::<C>() {
+                return skip("identifier 1 does not distinguish coefficient positions");
+            }
+            let xa = pow::<C>(&id_scalar::<C>(&victim)?, a);
+            let xb = pow::<C>(&id_scalar::<C>(&victim)?, b);
+            if xa == xb {
+                return skip("identifier powers coincide");
+            }
+            SecretShare::new(victim, *share.signing_share(), c)
+        }
+    };
+    must_refuse(altered.verify(), &format!("SecretShare::verify of an altered share ({kind})"))?;
+    must_refuse(KeyPackage::<C>::try_from(altered), &format!("KeyPackage::try_from of an altered share ({kind})"))?;
+    Ok(())
+}
+
+fn pow<C: Suite>(x: &Sc<C>, e: usize) -> Sc<C> {
+    let mut r = one::<C>();
+    for _ in 0..e {
+        r = r * *x;
+    }
+    r
+}
+
+pub fn scenario_invalid_parameters_refused<C: Suite>(rng: &mut TestRng, p: &Params, notes: &mut Notes) -> Verdict {
+    let ids = make_ids::<C>(&p.ids)?;
+    let kinds = [
+        "min-signers-0",
+        "min-signers-1",
+        "max-signers-0",
+        "max-signers-1",
+        "min-greater-than-max",
+        "too-few-identifiers",
+        "too-many-identifiers",
+        "no-identifiers",
+        "duplicate-adjacent",
+        "duplicate-non-adjacent",
+    ];
+    let kind = kinds[rng.below(kinds.len())];
+    notes.insert("invalid".into(), json!(kind));
+    let outsider = need(Id::<C>::derive(b"one identifier too many"), "derive")?;
+    if ids.contains(&outsider) {
+        return skip("collision");
+    }
+    let (mut n, mut t) = (p.n, p.t);
+    let mut list: Vec<Id<C>> = ids.clone();
+    let mut use_default = p.id_scheme == "default";
+    match kind {
+        "min-signers-0" => t = 0,
+        "min-signers-1" => t = 1,
+        "max-signers-0" => {
+            n = 0;
+            list.clear();
+        }
+        "max-signers-1" => {
+            n = 1;
+            list.truncate(1);
+        }
+        "min-greater-than-max" => t = n + 1 + rng.below(3) as u16,
+        "too-few-identifiers" => {
+            let cut = rng.range(1, list.len());
+            list.truncate(list.len() - cut);
+            use_default = false;
+        }
+        "too-many-identifiers" => {
+            list.push(outsider);
+            if rng.chance(30) {
+                list.push(need(Id::<C>::derive(b"and yet another one"), "derive")?);
+            }
+            rng.shuffle(&mut list);
+            use_default = false;
+        }
+        "no-identifiers" => {
+            list.clear();
+            use_default = false;
+        }
+        "duplicate-adjacent" => {
+            let i = rng.below(list.len());
+            let j = if i + 1 < list.len() { i + 1 } else { i - 1 };
+            if let Some(v) = list.get(i).copied() {
+                if let Some(slot) = list.get_mut(j) {
+                    *slot = v;
+                }
+            }
+            use_default = false;
+        }
+        _ => {
+            if list.len() < 3 {
+                return skip("needs three identifiers");
+            }
+            // positions at distance >= 2
+            let i = rng.below(list.len() - 2);
+            let j = rng.range(i + 2, list.len() - 1);
+            if let Some(v) = list.get(i).copied() {
+                if let Some(slot) = list.get_mut(j) {
+                    *slot = v;
+                }
+            }
+            use_default = false;
+        }
+    }
+    notes.insert("max_signers".into(), json!(n));
+    notes.insert("min_signers".into(), json!(t));
+    notes.insert("identifier_list_hex".into(), json!(if use_default { vec!["<default>".to_string()] } else { ids_hex::<C>(&list) }));
+    fn mk<'a, C: Suite>(use_default: bool, l: &'a [Id<C>]) -> IdentifierList<'a, C> {
+        if use_default {
+            IdentifierList::Default
+        } else {
+            IdentifierList::Custom(l)
+        }
+    }
+    match keys::generate_with_dealer::<C, _>(n, t, mk::<C>(use_default, &list), rng) {
+        Err(_) => {}
+        Ok((s, pk)) => {
+            return fail(
+                &format!("generate_with_dealer refuses invalid parameters ({kind})"),
+                "Err(..)",
+                format!("Ok({} shares, {} verifying shares)", s.len(), pk.verifying_shares().len()),
+            )
+        }
+    }
+    let sk = fc::SigningKey::<C>::new(rng);
+    match keys::split::<C, _>(&sk, n, t, mk::<C>(use_default, &list), rng) {
+        Err(_) => Ok(()),
+        Ok((s, pk)) => fail(
+            &format!("split refuses invalid parameters ({kind})"),
+            "Err(..)",
+            format!("Ok({} shares, {} verifying shares)", s.len(), pk.verifying_shares().len()),
+        ),
+    }
+}
+
+/// The largest group the API admits: max_signers = u16::MAX with default identifiers.
+/// (expensive: only on the fast suites, and rarely)
+pub fn scenario_largest_group<C: Suite>(rng: &mut TestRng, _p: &Params, notes: &mut Notes) -> Verdict {
+    if C::NAME == "ed448" || C::NAME == "p256" {
+        return skip("largest-group case is run on the fast suites only");
+    }
+    let n = u16::MAX;
+    let t = 2u16;
+    notes.insert("max_signers".into(), json!(n));
+    notes.insert("min_signers".into(), json!(t));
+    let (shares, pkp) = must(
+        keys::generate_with_dealer::<C, _>(n, t, IdentifierList::Default, rng),
+        "generate_with_dealer(65535, 2, Default)",
+    )?;
+    check(
+        shares.len() == n as usize && pkp.verifying_shares().len() == n as usize,
+        "the dealer issues one share per participant for max_signers = 65535",
+        "65535 shares and verifying shares",
+        format!("{} shares, {} verifying shares", shares.len(), pkp.verifying_shares().len()),
+    )?;
+    for probe in [1u16, 2, 255, 256, 32768, 65534, 65535] {
+        let id = need(Id::<C>::try_from(probe), "id")?;
+        match shares.get(&id) {
+            Some(s) => {
+                must(s.verify(), &format!("SecretShare::verify of participant {probe} of 65535"))?;
+            }
+            None => return fail("there is a share for every identifier 1..=65535", format!("share for {probe}"), "none"),
+        }
+    }
+    Ok(())
+}
